@@ -49,10 +49,10 @@ func (p *projSpec) semanticItems() []string {
 	}
 	for i := range p.Targets {
 		for k, r := range p.Targets[i].Refs {
-			if r.Kind == "lit" || r.Kind == "default" || r.Kind == "freevar" || r.Kind == "twins" || r.Kind == "cacheonce" {
+			if r.Kind == "lit" || r.Kind == "default" || r.Kind == "freevar" || r.Kind == "twins" || r.Kind == "cacheonce" || r.Kind == "lateglobal" || r.Kind == "structfn" {
 				out = append(out, fmt.Sprintf("ref|%s|%d", p.Targets[i].label(), k))
 			}
-			if r.Kind == "twins" {
+			if r.Kind == "twins" || r.Kind == "lateglobal" {
 				out = append(out, fmt.Sprintf("ref2|%s|%d", p.Targets[i].label(), k))
 			}
 		}
